@@ -85,11 +85,11 @@ static bool isConvertedToBool(const Token* tok)
 //---------------------------------------------------------------------------
 void CheckBool::checkBitwiseOnBoolean()
 {
+    // danmar: this is inconclusive because I don't like that there are
+    //         warnings for calculations. Example: set_flag(a & b);
     if (!mSettings->isPremiumEnabled("bitwiseOnBoolean") &&
-        !mSettings->severity.isEnabled(Severity::style) &&
-        // danmar: this is inconclusive because I don't like that there are
-        //         warnings for calculations. Example: set_flag(a & b);
-        !mSettings->certainty.isEnabled(Certainty::inconclusive))
+        (!mSettings->severity.isEnabled(Severity::style) ||
+         !mSettings->certainty.isEnabled(Certainty::inconclusive)))
         return;
 
     logChecker("CheckBool::checkBitwiseOnBoolean"); // style,inconclusive
